@@ -4,7 +4,7 @@ import "math/rand"
 
 func init() {
 	register(recvProp{id: "C12", w: 1, gen: genC12,
-		rule: "for each generated inbound stream (mixed stanzas with text, entities, nested unknown elements; <r/>, <a/>), the connection is cut at EVERY byte offset of the stream (exhaustive per stream), SM on/off, plus write faults at each answer (that write alone, or it and every later one); streams with a stream error in the middle (its handler leaving the connection alone, or replacing it as a StreamManager does) cut at every offset: the keepalive quit channel is sampled whenever the receive goroutine enters a callback or a transport call, so that the place where it is closed is compared with the model; one stream in three is read through the real XMPPTransport path (traffic logger + buffered decoder) over a scripted net.Conn whose last bytes arrive together with the read error; plus sessions over the real WebSocket transport whose TCP connection the peer resets (detected through the keepalive); goroutines of the library are counted after quiescence; distinct = (stream, offset); non-trivial = at least 2 complete stanzas before the cut"})
+		rule: "for each generated inbound stream (mixed stanzas with text, entities, nested unknown elements; <r/>, <a/>), the connection is cut at EVERY byte offset of the stream (exhaustive per stream), SM on/off, plus write faults at each answer (that write alone, or it and every later one); streams with a stream error in the middle (its handler leaving the connection alone, or replacing it as a StreamManager does) cut at every offset: the keepalive quit channel is sampled whenever the receive goroutine enters a callback or a transport call, so that the place where it is closed is compared with the model; one stream in three is read through the real XMPPTransport path (traffic logger + buffered decoder) over a scripted net.Conn whose last bytes arrive together with the read error; plus sessions over the real WebSocket transport whose TCP connection the peer resets (detected through the keepalive); a keepalive whose ping fails on a connection that ended behind a burst of 100-250 elements and which closes the transport before the receiver has read any of them; a client without error callback cut at many offsets; goroutines of the library are counted after quiescence; distinct = (stream, offset); non-trivial = at least 2 complete stanzas before the cut"})
 }
 
 func genC12(r *rand.Rand, tier string) []interface{} {
@@ -103,6 +103,46 @@ func genC12(r *rand.Rand, tier string) []interface{} {
 			}
 		}
 		in.Items = wsify(items)
+		out = append(out, in)
+	}
+	// a keepalive that notices first: a burst of 100-250 elements, the connection ends behind the last one while the
+	// receiver has not read any of them; the keepalive's ping fails and it closes the transport. Every element had been
+	// received: all are still routed, the loss is reported once
+	for i := 0; i < nws; i++ {
+		in := recvIn{Cut: -1, WS: true, LateRecv: "keepalive", SM: i%2 == 0}
+		for _, it := range wsify(genItems(r, 100+r.Intn(150), false, false)) {
+			if it.T == "r" {
+				continue // (the transport is closed: an answer cannot even be attempted)
+			}
+			if it.T == "stanza" && it.Var%len(textPool) >= 6 {
+				it.Var -= it.Var % len(textPool)
+				it.render()
+				it.XML = wsNS(it.XML)
+			}
+			in.Items = append(in.Items, it)
+		}
+		out = append(out, in)
+	}
+	// a client created without an error callback: the loss must not bring the process down, at any cut
+	{
+		items := genItems(r, 3, false, false)
+		for i := range items {
+			if items[i].T == "stanza" && items[i].Var%len(textPool) >= 6 {
+				items[i].Var -= items[i].Var % len(textPool)
+				items[i].render()
+			}
+		}
+		base := recvIn{SM: true, Items: items, Cut: -1, NoErrH: true, LeakCheck: true}
+		total := len(base.body())
+		for cut := 0; cut <= total; cut += 1 + total/40 {
+			in := base
+			in.Cut = cut
+			out = append(out, in)
+		}
+		se := rItem{T: "serr", Tag: 1}
+		se.render()
+		in := base
+		in.Items = append(append([]rItem{}, items...), se)
 		out = append(out, in)
 	}
 	// the server closes the websocket right behind a burst: the client is still reading when the close arrives;
